@@ -46,7 +46,10 @@ def is_online(cfg):
 
 
 def costs(cfg):
-    return [k / 8 for k in cfg.get("c8", DEFAULT_C8)]
+    """Cost vector as floats: numerators cfg["c8"] over the denominator cfg["den"] (default 8: dyadic
+    eighths, exact in floating point; den=10: one-decimal costs, inexact; den=8*2**40 etc.: other units)."""
+    den = cfg.get("den", 8)
+    return [k / den for k in cfg.get("c8", DEFAULT_C8)]
 
 
 def key(cfg):
@@ -64,15 +67,15 @@ def describe(cfg):
     if c == "SingleMemory":
         return "SingleMemoryStorageSchedule() n=%d passes=%d" % (cfg["n"], cfg["passes"])
     if c == "SingleDisk":
-        return "SingleDiskStorageSchedule(move_data=%s) n=%d passes=%d" % (cfg["move"], cfg["n"], cfg["passes"])
+        return "SingleDiskStorageSchedule(move_data=%s) n=%d passes=%d%s" % (cfg["move"], cfg["n"], cfg["passes"], " finalised %d Forward(s) late" % cfg["late"] if cfg.get("late") else "")
     if c == "Multistage":
         return "MultistageCheckpointSchedule(%d,%d,%d,trajectory=%r)" % (cfg["n"], cfg["ram"], cfg["disk"], cfg["traj"])
     if c == "Mixed":
         return "MixedCheckpointSchedule(%d,%d,storage=%s)%s" % (cfg["n"], cfg["s"], cfg["storage"], " [tabulated]" if cfg.get("numba") else "")
     if c == "TwoLevel":
         return "TwoLevelCheckpointSchedule(%d,%d,binomial_storage=%s,binomial_trajectory=%r) n=%d passes=%d" % (
-            cfg["period"], cfg["b"], cfg["storage"], cfg["traj"], cfg["n"], cfg["passes"])
-    cs = ",".join("%g" % x for x in costs(cfg))
+            cfg["period"], cfg["b"], cfg["storage"], cfg["traj"], cfg["n"], cfg["passes"]) + (" finalised %d Forward(s) late" % cfg["late"] if cfg.get("late") else "")
+    cs = ",".join("%.12g" % x for x in costs(cfg))
     if c == "HRevolve":
         return "HRevolve(%d,%d,%d,%s)" % (cfg["n"], cfg["s"], cfg["d"], cs)
     return "%s(%d,%d,%s)" % (c, cfg["n"], cfg["s"], cs)
@@ -403,6 +406,22 @@ def box(tier, classes=None, N=None, multipass=True):
                         yield {"cls": "HRevolve", "n": n, "s": s, "d": d, "c8": list(c8), "passes": 1}
 
 
+def late_finalisation_box(tier):
+    """Online schedules whose driver draws 1-3 further Forward actions after the forward was told to
+    reach n (the calculation has ended, they are not executed) and only then calls finalize(n)."""
+    N = 6 if tier == "quick" else 12
+    for n in range(1, N + 1):
+        for late in (1, 2, 3):
+            yield {"cls": "None", "n": n, "passes": 0, "late": late}
+            yield {"cls": "SingleMemory", "n": n, "passes": 2, "late": late}
+            yield {"cls": "SingleDisk", "move": False, "n": n, "passes": 2, "late": late}
+            yield {"cls": "SingleDisk", "move": True, "n": n, "passes": 1, "late": late}
+            for p in (1, 2, 3, 5):
+                for b in (0, 2):
+                    yield {"cls": "TwoLevel", "period": p, "b": b, "storage": "RAM" if (p + b) % 2 else "DISK", "traj": "maximum" if n % 2 else "revolve",
+                           "n": n, "passes": 2, "late": late}
+
+
 def deep_repeat_probes(tier):
     """'Arbitrarily many' adjoint calculations: more passes than the default recursion limit
     (1000) on the three classes that permit unlimited repetition."""
@@ -472,7 +491,7 @@ def valid(cfg):
 # Deterministic coordinate-descent shrinker
 # --------------------------------------------------------------------------
 
-_INT_FIELDS = {"n": 1, "ram": 0, "disk": 0, "s": 0, "d": 0, "period": 1, "b": 0, "passes": 1}
+_INT_FIELDS = {"n": 1, "ram": 0, "disk": 0, "s": 0, "d": 0, "period": 1, "b": 0, "passes": 1, "late": 0}
 _ENUM_FIELDS = {"traj": ["maximum", "revolve"], "storage": ["RAM", "DISK"], "move": [False, True]}
 
 
